@@ -72,12 +72,12 @@ class SMRun:
             out.append(h)
         return out
 
-    def edge_cover(self, consts, timeout=1500):
+    def edge_cover(self, consts, timeout=1500, workers=1):
         """Exhaustive TLC run whose view includes the last step: one behaviour is exported for every reachable
         (abstract state, event) pair -- including the events the model ignores.  Returns the maximal behaviours
         (every exported behaviour is a prefix of one of them) and the TLC result."""
         cfg = self.cfg("SM_cover.cfg", dict(consts, EmitAll="TRUE"), invariants=("EmitEvery",), edge_view=True)
-        res = self.tlc(cfg, timeout=timeout, workers=1)
+        res = self.tlc(cfg, timeout=timeout, workers=workers)
         behs = self.behaviours(res)
 
         def key(b):
